@@ -252,6 +252,8 @@ class Recorder:
         self.app_msgs = []  # FIXMessage delivered to on_message
         self.raise_next = 0  # number of coming on_message calls that raise after recording
         self.responder = None  # async callable(msg) run inside on_message
+        self.send_on_active = False  # on_state_change(ACTIVE) sends an application message
+        self.sent_from_hook = 0
         self.disconnect_next = 0  # number of coming on_message calls that call disconnect() after recording
         self.auto_logon = True
         self.replay_filter = None  # callable(msg)->bool
@@ -305,6 +307,15 @@ class Recorder:
     async def on_state_change(self, st):
         self._ev("state", st)
         await self._gate("on_state_change", st)
+        if self.send_on_active and getattr(st, "name", "") == "ACTIVE":
+            # an application that starts talking as soon as it is told the session is ACTIVE (from inside the hook)
+            from asyncfix import FIXMessage as _M, FMsg as _F
+
+            self.sent_from_hook += 1
+            try:
+                await self.send_msg(_M(_F.NEWORDERSINGLE, {11: f"from-hook-{self.sent_from_hook}", 55: "SYM"}))
+            except Exception as e:  # noqa
+                self._ev("hook-send-refused", type(e).__name__)
 
     async def should_replay(self, msg):
         await self._gate("should_replay", msg)
